@@ -25,11 +25,13 @@ CFG = dict(
     max_live=5,
     set_all_tensor=False,
 )
+CFG_RO = dict(CFG, set_idx=(), iops=(), outs=(), views=("s1", "rev", "all"), ops1=("mul2", "sq2"))
 WORLDS = {
+    "x4ro": [("x", (4,), 0, False, "ro"), ("y", (3,), 5, False)],
     "x4": [("x", (4,), 0, False), ("y", (3,), 5, False)],
     "x23": [("x", (2, 3), 0, False), ("y", (3,), 7, False)],
 }
-BOUNDS = {"quick": [("x4", 3, 1), ("x23", 2, 1)], "thorough": [("x4", 3, 2), ("x23", 3, 1), ("x4", 4, 1)]}
+BOUNDS = {"quick": [("x4", 3, 1), ("x23", 2, 1), ("x4ro", 3, 1)], "thorough": [("x4", 3, 2), ("x23", 3, 1), ("x4", 4, 1), ("x4ro", 4, 1)]}
 
 FAULTS = {
     # name -> (code, callable(impl, t), applicable(shape))
@@ -42,9 +44,16 @@ FAULTS = {
     "f_iadd": ("{0} += np.zeros(7)", lambda im, t: t.__iadd__(np.zeros(7)), lambda s: True),
     "f_out": ("mg.multiply({0}, np.zeros(7), out={0})", lambda im, t: im.mg.multiply(t, np.zeros(7), out=t), lambda s: True),
     "f_outdtype": ("mg.add({0}, 1.0, out={0}, dtype=np.int32)", lambda im, t: im.mg.add(t, 1.0, out=t, dtype=np.int32), lambda s: True),
-    "f_outshape": ("mg.add({0}, 1.0, out=y0)", None, lambda s: True),
+    "f_intconst": ("mg.add(mg.tensor([1]), mg.tensor([2]), constant=False)  # rejected after its forward pass",
+                   lambda im, t: im.mg.add(im.ints[0], im.ints[1], constant=False), lambda s: True),
 }
-del FAULTS["f_outshape"]
+# valid statements that must fail because the target's memory is natively read-only
+RO_FAULTS = {
+    "f_ro_set": ("{0}[...] = 0.5", lambda im, t: t.__setitem__(..., 0.5), lambda s: True),
+    "f_ro_iadd": ("{0} += 1.0", lambda im, t: t.__iadd__(1.0), lambda s: True),
+    "f_ro_out": ("mg.multiply({0}, 2.0, out={0})", lambda im, t: im.mg.multiply(t, 2.0, out=t), lambda s: True),
+}
+FAULTS.update(RO_FAULTS)
 
 
 def observe(impl):
@@ -69,6 +78,9 @@ def observe(impl):
         out.append((n, t.data.shape, t.data.tobytes(), t.constant, bname, wflag,
                     type(t._creator).__name__, sum(1 for r in t._ops if r() is not None)))
     sh = tuple(np.shares_memory(impl.t[a].data, impl.t[b].data) for i, a in enumerate(names) for b in names[i + 1:])
+    for k, t in enumerate(getattr(impl, "ints", ())):
+        out.append(("<int tensor %d>" % k, t.data.shape, t.data.tobytes(), t.constant, None, bool(t.data.flags.writeable), type(t._creator).__name__,
+                    sum(1 for r in t._ops if r() is not None)))
     return (tuple(out), sh)
 
 
@@ -92,6 +104,7 @@ def execute(init, h, seed, fault=None):
     """h may contain ('bwall',); fault = (position, fname, target).  -> (observations, grads, failure)"""
     base.reset_mygrad()
     impl = Impl(init, seed)
+    impl.ints = (impl.mg.tensor([1, 2]), impl.mg.tensor([3, 4]))
     obs = [observe(impl)]
     failure = None
     k = 0
@@ -102,11 +115,19 @@ def execute(init, h, seed, fault=None):
         st = tuple(st)
         if st[0] == "fault":
             raised = False
+            o_handler = None
             try:
                 FAULTS[st[1]][1](impl, impl.t[st[2]])
             except Exception as e:
                 raised = True
+                # what a caller sees *inside* its except block (exception and traceback still alive)
+                o_handler = observe(impl)
                 del e
+            if raised and o_handler is not None:
+                d = diff(obs[-1], o_handler)
+                if d is not None:
+                    failure = ("state_changed_by_failed_op", "(observed inside the except block) " + d)
+                    break
             if not raised:
                 failure = ("harness", "fault statement did not raise: %r" % (st,))
                 break
@@ -145,10 +166,14 @@ def execute(init, h, seed, fault=None):
     return obs, grads, failure
 
 
-def faults_at(model_shapes, live):
+def faults_at(model_shapes, live, ro_family=()):
     out = []
     for n in live:
         for f, (code, fn, ok) in FAULTS.items():
+            if f in RO_FAULTS and n not in ro_family:
+                continue
+            if f == "f_intconst" and n != live[0]:
+                continue
             if ok(model_shapes[n]):
                 out.append((f, n))
     return out
@@ -166,11 +191,12 @@ def check_history(init, h, seed, acc, nfaults):
     m = Model(init, seed=seed)
     pos = []
     for i in range(len(h) + 1):
-        pos.append((list(m.order), {n: m.shape(n) for n in m.order}))
+        ro = [i[0] for i in init if "ro" in [o for o in i[4:] if isinstance(o, str)]]
+        pos.append((list(m.order), {n: m.shape(n) for n in m.order}, [n for n in m.order if m.fam[n] in ro]))
         if i < len(h) and h[i][0] != "bwall":
             m.apply(tuple(h[i]))
-    for p, (live, shapes) in enumerate(pos):
-        for f, n in faults_at(shapes, [x for x in live if x != "y"]):
+    for p, (live, shapes, rofam) in enumerate(pos):
+        for f, n in faults_at(shapes, [x for x in live if x != "y"], rofam):
             B = execute(init, h, seed, fault=(p, f, n))
             acc.inc("evaluations")
             acc.inc("fault_runs")
@@ -225,7 +251,7 @@ def run_task(task):
         if len(acc.samples) < 2 and len(h) == depth:
             acc.samples.append("; ".join("L.backward()" if s[0] == "bwall" else render(s) for s in h) + "  x every (position, failing statement)")
         if len(h) < depth:
-            for st in reversed(enabled(m, CFG, "t%d" % len(h), nb)):
+            for st in reversed(enabled(m, CFG_RO if wname == "x4ro" else CFG, "t%d" % len(h), nb)):
                 stack.append(h + [st])
     return acc
 
@@ -236,13 +262,14 @@ def plan(tier, seed):
         init = WORLDS[wname]
         m = Model(init, seed=seed)
         tasks.append((wname, [], 0, nf, seed))
-        for st in enabled(m, CFG, "t0", 0):
+        cfg = CFG_RO if wname == "x4ro" else CFG
+        for st in enabled(m, cfg, "t0", 0):
             m1 = Model(init, seed=seed)
             if st[0] != "bwall":
                 m1.apply(st)
             tasks.append((wname, [st], 1, nf, seed))
             if depth >= 2:
-                for st2 in enabled(m1, CFG, "t1", 1 if st[0] == "bwall" else 0):
+                for st2 in enabled(m1, cfg, "t1", 1 if st[0] == "bwall" else 0):
                     tasks.append((wname, [st, st2], depth, nf, seed))
     return dict(
         tasks=tasks,
